@@ -95,6 +95,7 @@ func C18(r *core.Run) {
 	})
 	core.Parallel(len(sessions), func(si int) {
 		c18inject(r, sessions[si])
+		c18fallbacks(r, sessions[si])
 	})
 }
 
@@ -513,4 +514,86 @@ func pickRune(rg *rand.Rand, n int) int {
 		return rg.IntN(min(95, n))
 	}
 	return rg.IntN(n)
+}
+
+// c18fallbacks: "Bytes ... under the same fallback rules as a real screen": a registration
+// change takes effect at the next draw of the cell, also when only the style of the cell
+// changed in between (or nothing but a Sync happened).
+func c18fallbacks(r *core.Run, ss simSess) {
+	if ss.cs == "UTF-8" {
+		return
+	}
+	s := tcell.NewSimulationScreen(ss.cs)
+	if s == nil || s.Init() != nil {
+		r.Inconclusive("no simulation screen for " + ss.cs)
+		return
+	}
+	defer s.Fini()
+	s.SetSize(20, 4)
+	rg := r.Rand("c18fb", ss.cs)
+	var cands []rune
+	for _, rn := range []rune{0x2500, 0x2502, 0x25c6, 0x2192, 0x03c0, 0x20ac, 0x4e16, 0x1f600, 0x00e9, 0x0416} {
+		if _, ok := ss.encode(rn); !ok {
+			cands = append(cands, rn)
+		}
+	}
+	if len(cands) == 0 {
+		return
+	}
+	bytesAt := func(x, y int) string {
+		cells, w, _ := s.GetContents()
+		return string(cells[y*w+x].Bytes)
+	}
+	for k := 0; k < r.Pick(12, 200); k++ {
+		rn := cands[rg.IntN(len(cands))]
+		x, y := rg.IntN(9)*2, rg.IntN(4)
+		nst := 0
+		st := func(int) tcell.Style { // a style different from the one used last, every time
+			nst++
+			return tcell.StyleDefault.Foreground(tcell.PaletteColor(1 + nst%7)).Bold(nst%2 == 0)
+		}
+		want := "?"
+		if fb, ok := tcell.RuneFallbacks[rn]; ok {
+			want = fb
+		}
+		redraw := func(i int) {
+			switch rg.IntN(3) {
+			case 0:
+				s.SetContent(x, y, rn, nil, st(i)) // same rune, another style
+				s.Show()
+			case 1:
+				s.Sync()
+			default:
+				s.SetContent(x, y, 'z', nil, st(i))
+				s.Show()
+				s.SetContent(x, y, rn, nil, st(i+1))
+				s.Show()
+			}
+		}
+		s.Clear()
+		s.SetContent(x, y, rn, nil, st(0))
+		s.Show()
+		steps := []struct {
+			what string
+			f    func()
+			want string
+		}{
+			{"first draw", func() {}, want},
+			{"RegisterRuneFallback(\"#\") then redraw", func() { s.RegisterRuneFallback(rn, "#"); redraw(1) }, "#"},
+			{"RegisterRuneFallback(\"%\") then redraw", func() { s.RegisterRuneFallback(rn, "%"); redraw(2) }, "%"},
+			{"UnregisterRuneFallback then redraw", func() { s.UnregisterRuneFallback(rn); redraw(3) }, "?"},
+		}
+		for _, stp := range steps {
+			stp.f()
+			if got := bytesAt(x, y); got != stp.want {
+				r.Violate("fallback:bytes|"+csFamily(ss.cs), fmt.Sprintf("%s: cell (%d,%d) holding %U (not representable): after %s its Bytes are %q, expected %q", ss.cs, x, y, rn, stp.what, got, stp.want), nil)
+				return
+			}
+		}
+		// put the default back for the next round
+		if fb, ok := tcell.RuneFallbacks[rn]; ok {
+			s.RegisterRuneFallback(rn, fb)
+		}
+		r.Case(fmt.Sprintf("simfb|%s|%d|%d", ss.cs, rn, k))
+	}
 }
